@@ -275,6 +275,13 @@ def iterate_chunks(shape, chunk_shape=None, n_max=None):
             raise ValueError('chunk_shape should fit within shape')
 
     ndim = len(chunk_shape)
+
+    # A 0-d array has exactly one element: a single chunk, the empty tuple
+    # of slices (``array[()]`` is that element).
+    if ndim == 0:
+        yield ()
+        return
+
     start_index = [0] * ndim
 
     shape = list(shape)
